@@ -134,8 +134,8 @@ def gen_program(rng, n):
     alive = {}
     for _ in range(n):
         r = rng.random()
-        def item(k):
-            t = rng.choice("sssicc")
+        def item(k, named=False):
+            t = rng.choice("sssiccfp" if named else "sssicc")     # std::function / function pointer only through named streams
             return dict(t=t, v=(rng.randint(0, 999) if t == "i" else rng.choice(["a", "b.", " x ", "", "{}", "|", "\n", "zz"]) + str(k)))
         if r < 0.15 and not alive:
             steps.append(dict(op="SetThr", i=rng.randint(1, 3), v=rng.randint(0, 5)))
@@ -149,7 +149,7 @@ def gen_program(rng, n):
             s = rng.choice(sorted(alive))
             if alive[s] < 6:
                 alive[s] += 1
-                steps.append(dict(op="Stream", slot=s, item=item(alive[s])))
+                steps.append(dict(op="Stream", slot=s, item=item(alive[s], named=True)))
         elif alive:
             s = rng.choice(sorted(alive))
             del alive[s]
